@@ -112,6 +112,7 @@ func specSameQuota(ue *chf_context.ChfUe, old map[int32]int64) bool {
 //@   modifies global(&abmf.GhostRequests), global(&rating.GhostRequests), mapof(abmf.GhostBalance), global(&abmf.GhostFailed), global(&rating.GhostFailed)
 //@   modifies elems(specUe(chargingData).RatingGroups[len(specUe(chargingData).RatingGroups):cap(specUe(chargingData).RatingGroups)])
 //@   assumed-frame
+//@   linear multipleUnitInformation, unitInformation.Triggers
 //@   loop 0: unroll 1 when-inlined
 //@   loop 1: unroll 1 when-inlined
 //@   loop 2: unroll 1 when-inlined
